@@ -43,7 +43,14 @@ type funcInfo struct {
 	calleesX map[string]bool // every same-package function called: only their calls into other tables count
 	ext      map[string]bool // "Type.Method" of another table
 	alias    map[string]bool // fields (f or f[]) the result may alias
-	retCalls map[string]bool // same-package functions whose result is returned
+	retCalls []retCall // same-package functions whose result flows into a returned value, with the call's arguments
+	li       *localInfo
+	params   []string
+}
+
+type retCall struct {
+	callee string
+	args   []ast.Expr
 }
 
 type pkgInfo struct {
@@ -123,7 +130,7 @@ func loadPkg(dir string) *pkgInfo {
 					p.structs[ts.Name.Name] = si
 				}
 			case *ast.FuncDecl:
-				fi := &funcInfo{decl: d, callees: map[string]bool{}, calleesX: map[string]bool{}, ext: map[string]bool{}, alias: map[string]bool{}, retCalls: map[string]bool{}}
+				fi := &funcInfo{decl: d, callees: map[string]bool{}, calleesX: map[string]bool{}, ext: map[string]bool{}, alias: map[string]bool{}}
 				fi.key = d.Name.Name
 				if d.Recv != nil && len(d.Recv.List) == 1 {
 					fi.recvType = strings.TrimPrefix(typeText(d.Recv.List[0].Type), "*")
@@ -131,6 +138,13 @@ func loadPkg(dir string) *pkgInfo {
 						fi.recvName = d.Recv.List[0].Names[0].Name
 					}
 					fi.key = fi.recvType + "." + d.Name.Name
+				}
+				if d.Type.Params != nil {
+					for _, fl := range d.Type.Params.List {
+						for _, n := range fl.Names {
+							fi.params = append(fi.params, n.Name)
+						}
+					}
 				}
 				if d.Body != nil {
 					p.funcs[fi.key] = fi
@@ -416,6 +430,7 @@ func (li *localInfo) fresh(name string) bool {
 // analyse computes the direct properties of one function
 func (p *pkgInfo) analyse(fi *funcInfo, apiTables map[string]bool) {
 	li := p.locals(fi)
+	fi.li = li
 	write := func(e ast.Expr) {
 		id, fields, viaSync, steps := p.root(e)
 		if id == "" || viaSync {
@@ -591,134 +606,413 @@ func (p *pkgInfo) analyse(fi *funcInfo, apiTables map[string]bool) {
 		}
 	}
 	// what the results may alias
-	var aliasOf func(e ast.Expr, depth int)
-	aliasOf = func(e ast.Expr, depth int) {
-		if e == nil || depth > 6 {
-			return
-		}
-		switch t := e.(type) {
-		case *ast.Ident:
-			if t.Name == "nil" {
-				return
-			}
-			for _, r := range li.rhs[t.Name] {
-				aliasOf(r, depth+1)
-			}
-			for _, src := range li.elemsOf[t.Name] {
-				_, fields, viaSync, _ := p.root(src)
-				if !viaSync && len(fields) > 0 && p.exprTainted(li, src) {
-					fi.alias[fields[0]+"[]"] = true
-				}
-			}
-		case *ast.SelectorExpr, *ast.IndexExpr, *ast.SliceExpr:
-			id, fields, viaSync, _ := p.root(e)
-			if id != "" && li.tainted[id] && !viaSync && len(fields) > 0 {
-				if _, isIdx := e.(*ast.IndexExpr); isIdx {
-					fi.alias[fields[0]+"[]"] = true
-				} else {
-					fi.alias[fields[0]] = true
-				}
-			}
-		case *ast.UnaryExpr:
-			aliasOf(t.X, depth+1)
-		case *ast.ParenExpr:
-			aliasOf(t.X, depth+1)
-		case *ast.TypeAssertExpr:
-			aliasOf(t.X, depth+1)
-		case *ast.CompositeLit:
-			for _, el := range t.Elts {
-				if kv, ok := el.(*ast.KeyValueExpr); ok {
-					aliasOf(kv.Value, depth+1)
-				} else {
-					aliasOf(el, depth+1)
-				}
-			}
-		case *ast.CallExpr:
-			if id, ok := t.Fun.(*ast.Ident); ok {
-				if id.Name == "append" {
-					for _, a := range t.Args {
-						aliasOf(a, depth+1)
-					}
-				}
-				return
-			}
-			if s, ok := t.Fun.(*ast.SelectorExpr); ok {
-				if s.Sel.Name == "Clone" {
-					return
-				}
-				for _, g := range p.byName[s.Sel.Name] {
-					fi.retCalls[g.key] = true
-				}
-			}
-		}
-	}
 	ast.Inspect(fi.decl.Body, func(n ast.Node) bool {
 		if _, ok := n.(*ast.FuncLit); ok {
 			return false
 		}
 		if r, ok := n.(*ast.ReturnStmt); ok {
 			for _, e := range r.Results {
-				aliasOf(e, 0)
+				p.aliasInto(fi, e, 0)
 			}
 		}
 		return true
 	})
 }
 
-// bracket recognises  recv.mu.Lock(); defer recv.mu.Unlock()  at the top of the body
-func (p *pkgInfo) bracket(fi *funcInfo) (mutex string, write bool, ok bool) {
-	b := fi.decl.Body.List
-	if len(b) < 2 {
-		return "", false, false
+func (fi *funcInfo) paramIndex(name string) int {
+	for i, n := range fi.params {
+		if n == name {
+			return i
+		}
 	}
-	lockCall := func(s ast.Stmt, isDefer bool) (string, string) {
-		var call *ast.CallExpr
-		if isDefer {
-			d, ok := s.(*ast.DeferStmt)
-			if !ok {
-				return "", ""
-			}
-			call = d.Call
-		} else {
-			e, ok := s.(*ast.ExprStmt)
-			if !ok {
-				return "", ""
-			}
-			call, ok = e.X.(*ast.CallExpr)
-			if !ok {
-				return "", ""
-			}
-		}
-		sel, ok := call.Fun.(*ast.SelectorExpr)
-		if !ok {
-			return "", ""
-		}
-		mu, ok := sel.X.(*ast.SelectorExpr)
-		if !ok {
-			return "", ""
-		}
-		r, ok := mu.X.(*ast.Ident)
-		if !ok || r.Name != fi.recvName {
-			return "", ""
-		}
-		return mu.Sel.Name, sel.Sel.Name
+	return -1
+}
+
+// aliasInto adds to fi.alias what the value of e may alias: "f" (the slice/map/pointer held in field f of table
+// memory), "f[]" (the elements of f), and, for values derived from the function's own parameters, the placeholders
+// "$p<i>", "$p<i>[]", "$p<i>.f", "$p<i>.f[]" that callers resolve against their arguments.
+func (p *pkgInfo) aliasInto(fi *funcInfo, e ast.Expr, depth int) {
+	li := fi.li
+	if e == nil || depth > 6 {
+		return
 	}
-	m1, op1 := lockCall(b[0], false)
-	m2, op2 := lockCall(b[1], true)
-	if m1 == "" || m1 != m2 {
-		return "", false, false
+	switch t := e.(type) {
+	case *ast.Ident:
+		if t.Name == "nil" {
+			return
+		}
+		if i := fi.paramIndex(t.Name); i >= 0 && !li.tainted[t.Name] {
+			fi.alias[fmt.Sprintf("$p%d", i)] = true
+		}
+		for _, r := range li.rhs[t.Name] {
+			p.aliasInto(fi, r, depth+1)
+		}
+		for _, src := range li.elemsOf[t.Name] {
+			id, fields, viaSync, _ := p.root(src)
+			if viaSync {
+				continue
+			}
+			if p.exprTainted(li, src) && len(fields) > 0 {
+				fi.alias[fields[0]+"[]"] = true
+			} else if i := fi.paramIndex(id); i >= 0 {
+				if len(fields) > 0 {
+					fi.alias[fmt.Sprintf("$p%d.%s[]", i, fields[0])] = true
+				} else {
+					fi.alias[fmt.Sprintf("$p%d[]", i)] = true
+				}
+			}
+		}
+	case *ast.SelectorExpr, *ast.IndexExpr, *ast.SliceExpr:
+		id, fields, viaSync, _ := p.root(e)
+		if id == "" || viaSync || len(fields) == 0 {
+			if id != "" && !viaSync && len(fields) == 0 {
+				// indexing / slicing a plain identifier
+				if _, isIdx := e.(*ast.IndexExpr); !isIdx {
+					p.aliasInto(fi, &ast.Ident{Name: id}, depth+1)
+				}
+			}
+			return
+		}
+		_, isIdx := e.(*ast.IndexExpr)
+		suffix := ""
+		if isIdx {
+			suffix = "[]"
+		}
+		if li.tainted[id] {
+			fi.alias[fields[0]+suffix] = true
+		} else if i := fi.paramIndex(id); i >= 0 {
+			fi.alias[fmt.Sprintf("$p%d.%s%s", i, fields[0], suffix)] = true
+		}
+	case *ast.UnaryExpr:
+		p.aliasInto(fi, t.X, depth+1)
+	case *ast.ParenExpr:
+		p.aliasInto(fi, t.X, depth+1)
+	case *ast.TypeAssertExpr:
+		p.aliasInto(fi, t.X, depth+1)
+	case *ast.CompositeLit:
+		for _, el := range t.Elts {
+			if kv, ok := el.(*ast.KeyValueExpr); ok {
+				p.aliasInto(fi, kv.Value, depth+1)
+			} else {
+				p.aliasInto(fi, el, depth+1)
+			}
+		}
+	case *ast.CallExpr:
+		if id, ok := t.Fun.(*ast.Ident); ok {
+			switch id.Name {
+			case "append":
+				for _, a := range t.Args {
+					p.aliasInto(fi, a, depth+1)
+				}
+			case "make", "new", "len", "cap", "min", "max":
+			default:
+				if _, ok := p.funcs[id.Name]; ok {
+					fi.retCalls = append(fi.retCalls, retCall{id.Name, t.Args})
+				}
+			}
+			return
+		}
+		if s, ok := t.Fun.(*ast.SelectorExpr); ok {
+			if s.Sel.Name == "Clone" {
+				return
+			}
+			for _, g := range p.byName[s.Sel.Name] {
+				fi.retCalls = append(fi.retCalls, retCall{g.key, t.Args})
+			}
+		}
+	}
+}
+
+// resolveRetCalls maps the alias summary of the called functions onto the call's arguments; reports a change
+func (p *pkgInfo) resolveRetCalls(fi *funcInfo) bool {
+	before := len(fi.alias)
+	for _, rc := range fi.retCalls {
+		g := p.funcs[rc.callee]
+		if g == nil || g == fi {
+			continue
+		}
+		for a := range g.alias {
+			if !strings.HasPrefix(a, "$p") {
+				fi.alias[a] = true
+				continue
+			}
+			rest := a[2:]
+			n := 0
+			for n < len(rest) && rest[n] >= '0' && rest[n] <= '9' {
+				n++
+			}
+			idx := 0
+			fmt.Sscanf(rest[:n], "%d", &idx)
+			tail := rest[n:]
+			if idx >= len(rc.args) {
+				continue
+			}
+			arg := rc.args[idx]
+			id, fields, viaSync, _ := p.root(arg)
+			switch {
+			case tail == "":
+				p.aliasInto(fi, arg, 1)
+			case tail == "[]":
+				if !viaSync && p.exprTainted(fi.li, arg) && len(fields) > 0 {
+					fi.alias[fields[0]+"[]"] = true
+				} else if j := fi.paramIndex(id); j >= 0 && len(fields) == 0 {
+					fi.alias[fmt.Sprintf("$p%d[]", j)] = true
+				} else if _, isLocal := fi.li.rhs[id]; isLocal && len(fields) == 0 {
+					// elements of a local: whatever the local's elements alias
+					for _, src := range fi.li.elemsOf[id] {
+						_, f2, vs, _ := p.root(src)
+						if !vs && p.exprTainted(fi.li, src) && len(f2) > 0 {
+							fi.alias[f2[0]+"[]"] = true
+						}
+					}
+					for _, r := range fi.li.rhs[id] {
+						_, f2, vs, _ := p.root(r)
+						if !vs && p.exprTainted(fi.li, r) && len(f2) > 0 {
+							fi.alias[f2[0]+"[]"] = true
+						}
+					}
+				}
+			default: // ".f" or ".f[]": a field of the object passed
+				if !viaSync && (p.exprTainted(fi.li, arg) || fi.li.tainted[id]) {
+					fi.alias[strings.TrimPrefix(tail, ".")] = true
+				} else if j := fi.paramIndex(id); j >= 0 && len(fields) == 0 {
+					fi.alias[fmt.Sprintf("$p%d%s", j, tail)] = true
+				}
+			}
+		}
+	}
+	return len(fi.alias) != before
+}
+
+// touchesTable reports whether the node reads or writes table state: an access path rooted at the receiver or at a
+// local derived from it (not through a self-synchronising field), a call on / with such a value into the package, or a
+// call of another table's API.
+func (p *pkgInfo) touchesTable(fi *funcInfo, n ast.Node) bool {
+	li := fi.li
+	found := false
+	ast.Inspect(n, func(x ast.Node) bool {
+		if found || x == nil {
+			return false
+		}
+		switch t := x.(type) {
+		case *ast.SelectorExpr, *ast.IndexExpr:
+			id, fields, viaSync, _ := p.root(t.(ast.Expr))
+			if id != "" && li.tainted[id] && !viaSync {
+				// the mutex field itself is not table state
+				if len(fields) > 0 && p.isSyncField(fields[len(fields)-1]) {
+					return true
+				}
+				found = true
+			}
+			if id == "FibStrategyTable" || id == "Rib" {
+				found = true
+			}
+		case *ast.Ident:
+			if t.Name == "FibStrategyTable" {
+				found = true
+			}
+		}
+		return true
+	})
+	return found
+}
+
+// lockCall recognises  recv.<mutex>.<op>()  and returns the mutex field and the operation
+func (p *pkgInfo) lockCall(fi *funcInfo, call *ast.CallExpr) (string, string) {
+	sel, ok := call.Fun.(*ast.SelectorExpr)
+	if !ok {
+		return "", ""
+	}
+	mu, ok := sel.X.(*ast.SelectorExpr)
+	if !ok {
+		return "", ""
+	}
+	r, ok := mu.X.(*ast.Ident)
+	if !ok || r.Name != fi.recvName {
+		return "", ""
 	}
 	si := p.structs[fi.recvType]
-	if si == nil || !isSyncType(si.fields[m1]) {
+	if si == nil || !isSyncType(si.fields[mu.Sel.Name]) {
+		return "", ""
+	}
+	switch sel.Sel.Name {
+	case "Lock", "RLock", "Unlock", "RUnlock":
+		return mu.Sel.Name, sel.Sel.Name
+	}
+	return "", ""
+}
+
+func (p *pkgInfo) stmtLockCall(fi *funcInfo, s ast.Stmt) (mu, op string, deferred bool) {
+	switch t := s.(type) {
+	case *ast.ExprStmt:
+		if c, ok := t.X.(*ast.CallExpr); ok {
+			mu, op = p.lockCall(fi, c)
+		}
+	case *ast.DeferStmt:
+		mu, op = p.lockCall(fi, t.Call)
+		deferred = true
+	}
+	return
+}
+
+// bracket decides, by structure and not by statement position, whether every access of the method to table state is
+// made under the receiver's mutex:
+//   - top-level statements before the Lock()/RLock() must not touch table state (logging of the arguments, local
+//     computations on parameters are fine);
+//   - the lock is released either by a deferred Unlock()/RUnlock() stated before any later table access or return, or
+//     explicitly: then every return after the Lock is immediately preceded by the Unlock in its block, nothing but a
+//     return follows an Unlock in its block, returned expressions do not touch table state, and the body ends released.
+func (p *pkgInfo) bracket(fi *funcInfo) (mutex string, write bool, ok bool) {
+	if fi.li == nil {
+		fi.li = p.locals(fi)
+	}
+	body := fi.decl.Body.List
+	lockAt := -1
+	var lockOp string
+	for i, s := range body {
+		mu, op, deferred := p.stmtLockCall(fi, s)
+		if mu != "" && !deferred && (op == "Lock" || op == "RLock") {
+			lockAt, mutex, lockOp = i, mu, op
+			break
+		}
+		if p.touchesTable(fi, s) {
+			return "", false, false // table state is accessed before the lock is taken
+		}
+		if _, isRet := s.(*ast.ReturnStmt); isRet {
+			return "", false, false
+		}
+	}
+	if lockAt < 0 {
 		return "", false, false
 	}
-	switch {
-	case op1 == "Lock" && op2 == "Unlock":
-		return m1, true, true
-	case op1 == "RLock" && op2 == "RUnlock":
-		return m1, false, true
+	unlockOp := map[string]string{"Lock": "Unlock", "RLock": "RUnlock"}[lockOp]
+	write = lockOp == "Lock"
+	rest := body[lockAt+1:]
+	// deferred release: the defer comes before any table access / return / nested block that might return
+	for _, s := range rest {
+		mu, op, deferred := p.stmtLockCall(fi, s)
+		if mu == mutex && deferred && op == unlockOp {
+			// no explicit unlock of the same mutex anywhere else
+			extra := false
+			for _, s2 := range rest {
+				ast.Inspect(s2, func(x ast.Node) bool {
+					if c, ok := x.(*ast.CallExpr); ok {
+						if m2, o2 := p.lockCall(fi, c); m2 == mutex && o2 != "" {
+							if es, isDefer := s2.(*ast.DeferStmt); !(isDefer && es.Call == c) {
+								extra = true
+							}
+						}
+					}
+					return true
+				})
+			}
+			if extra {
+				return "", false, false
+			}
+			return mutex, write, true
+		}
+		if p.touchesTable(fi, s) {
+			break
+		}
+		hasRet := false
+		ast.Inspect(s, func(x ast.Node) bool {
+			if _, ok := x.(*ast.ReturnStmt); ok {
+				hasRet = true
+			}
+			return true
+		})
+		if hasRet {
+			break
+		}
+	}
+	// explicit release at every exit
+	okExplicit := true
+	var checkBlock func(list []ast.Stmt, top bool) (endsReleased bool)
+	checkBlock = func(list []ast.Stmt, top bool) bool {
+		released := false
+		for i, s := range list {
+			if released {
+				// after an Unlock only a return may follow, and it must not look at table state
+				r, isRet := s.(*ast.ReturnStmt)
+				if !isRet || p.touchesTable(fi, r) {
+					okExplicit = false
+				}
+				continue
+			}
+			mu, op, deferred := p.stmtLockCall(fi, s)
+			if mu == mutex && !deferred && op == unlockOp {
+				released = true
+				continue
+			}
+			if mu == mutex && op != "" {
+				okExplicit = false // re-locking, deferred unlock mixed with explicit ones ...
+				continue
+			}
+			switch t := s.(type) {
+			case *ast.ReturnStmt:
+				okExplicit = false // a return while the lock is held
+				_ = i
+			case *ast.BlockStmt:
+				if checkBlock(t.List, false) {
+					okExplicit = false // a nested block that releases and falls through
+				}
+			case *ast.IfStmt:
+				for cur := ast.Stmt(t); cur != nil; {
+					switch c := cur.(type) {
+					case *ast.IfStmt:
+						if checkBlock(c.Body.List, false) && !endsWithReturn(c.Body.List) {
+							okExplicit = false
+						}
+						cur = c.Else
+					case *ast.BlockStmt:
+						if checkBlock(c.List, false) && !endsWithReturn(c.List) {
+							okExplicit = false
+						}
+						cur = nil
+					default:
+						cur = nil
+					}
+				}
+			case *ast.ForStmt:
+				if checkBlock(t.Body.List, false) && !endsWithReturn(t.Body.List) {
+					okExplicit = false
+				}
+			case *ast.RangeStmt:
+				if checkBlock(t.Body.List, false) && !endsWithReturn(t.Body.List) {
+					okExplicit = false
+				}
+			case *ast.SwitchStmt, *ast.TypeSwitchStmt, *ast.SelectStmt, *ast.GoStmt, *ast.DeferStmt, *ast.LabeledStmt:
+				// not analysed: accept only if no return / unlock hides inside
+				ast.Inspect(s, func(x ast.Node) bool {
+					switch y := x.(type) {
+					case *ast.ReturnStmt:
+						okExplicit = false
+					case *ast.CallExpr:
+						if m2, _ := p.lockCall(fi, y); m2 == mutex {
+							okExplicit = false
+						}
+					}
+					return true
+				})
+			}
+		}
+		return released
+	}
+	if !checkBlock(rest, true) {
+		okExplicit = false // the body can end with the lock held
+	}
+	if okExplicit {
+		return mutex, write, true
 	}
 	return "", false, false
+}
+
+func endsWithReturn(list []ast.Stmt) bool {
+	if len(list) == 0 {
+		return false
+	}
+	_, ok := list[len(list)-1].(*ast.ReturnStmt)
+	return ok
 }
 
 func main() {
@@ -775,16 +1069,8 @@ func main() {
 						}
 					}
 				}
-				for c := range fi.retCalls {
-					g := pk.funcs[c]
-					if g == nil || g == fi {
-						continue
-					}
-					for a := range g.alias {
-						if !fi.alias[a] {
-							fi.alias[a], changed = true, true
-						}
-					}
+				if pk.resolveRetCalls(fi) {
+					changed = true
 				}
 			}
 		}
@@ -849,6 +1135,9 @@ func main() {
 			sort.Strings(of.calls)
 			var al []string
 			for a := range fi.alias {
+				if strings.HasPrefix(a, "$p") {
+					continue // memory handed in by the caller of the API method
+				}
 				if dangerous(pk, a) {
 					of.alias = true
 					al = append(al, a+"!")
